@@ -7,6 +7,7 @@ where the exception itself must surface, with on_error=raise).  The reference ex
 traceback.format_exception_only on the same exception raised in a reference namespace; the verdict of a
 traceback-shaped want comes from models.matchref.
 """
+import re
 import traceback
 
 from xmc.core import Spec
@@ -35,7 +36,9 @@ DIMS = [
     ('msg', ['plain', 'empty', 'multi', 'colon', 'dots', 'num', 'noted']),
     ('src', ['raise', 'call', 'helper', 'noraise', 'await', 'gen']),
     ('want', ['none', 'exact', 'stack', 'dotstack', 'wrongmsg', 'wrongtype', 'header', 'nontb', 'ellmsg', 'nameonly',
-              'indented', 'indented_wrongmsg', 'ell2over', 'dotstack0', 'dotstack0_wrongmsg', 'dotstack0_wrongtype']),
+              'indented', 'indented_wrongmsg', 'ell2over', 'dotstack0', 'dotstack0_wrongmsg', 'dotstack0_wrongtype',
+              # a wildcard inside the type name (prefix of the name + '...'), with the right and with a wrong prefix
+              'elltype', 'elltype_wrong', 'elltype_nomsg_wrong']),
     ('flags', [(), ('+IGNORE_EXCEPTION_DETAIL',), ('-ELLIPSIS',), ('+IGNORE_EXCEPTION_DETAIL', '-ELLIPSIS'),
                ('+IGNORE_WANT',)]),
     ('pos', ['only', 'middle', 'last']),
@@ -146,6 +149,12 @@ def build(cfg):
         w = [HDR, tname + ': ...' + tail + '...' + tail] if tail and tail.strip() == tail else None
     elif want == 'nameonly':
         w = [HDR, tname.split('.')[-1]]
+    elif want == 'elltype':
+        w = [HDR, tname[:3] + '...' + ': other text']
+    elif want == 'elltype_wrong':
+        w = [HDR, 'Zor...' + ': other text']
+    elif want == 'elltype_nomsg_wrong':
+        w = [HDR, 'Zork...']
     if want != 'none' and w is None:
         return None
     if w and any(not l.strip() for l in w):
@@ -171,11 +180,13 @@ def build(cfg):
         wmsg = '\n'.join(w[1:] if want not in ('stack', 'dotstack') and not want.startswith('dotstack0') else w[(3 if want == 'stack' else 2):])
         m = matchref.matches(excline, wmsg, fd)
         if not m and ied:
-            g1 = excline_.split('\n')[0].split(':')[0].split('.')[-1]
-            w1 = wmsg.split('\n')[0].split(':')[0].split('.')[-1]
+            # the type name without its dotted module path; the dots of a wildcard are not path separators
+            g1 = re.split(r'(?<!\.)\.(?!\.)', excline_.split('\n')[0].split(':')[0])[-1]
+            w1 = re.split(r'(?<!\.)\.(?!\.)', wmsg.split('\n')[0].split(':')[0])[-1]
             m = matchref.matches(g1, w1, fd)
         exp = ('pass',) if m else ('mismatch', etype)
-    if '+IGNORE_WANT' in fl and src != 'noraise' and want in ('wrongmsg', 'wrongtype', 'nameonly', 'ellmsg', 'indented_wrongmsg', 'ell2over', 'dotstack0_wrongmsg', 'dotstack0_wrongtype'):
+    if '+IGNORE_WANT' in fl and src != 'noraise' and want in ('wrongmsg', 'wrongtype', 'nameonly', 'ellmsg', 'indented_wrongmsg', 'ell2over', 'dotstack0_wrongmsg', 'dotstack0_wrongtype',
+                                                                        'elltype', 'elltype_wrong', 'elltype_nomsg_wrong'):
         exp = ('unspec',)       # DESIGN 3.1: IGNORE_WANT together with a wrong traceback
     return {'text': '\n'.join(lines), 'exp': exp, 'pre': pre, 'post': post, 'etype': etype}
 
